@@ -12,7 +12,7 @@ src, sid, prop, checks = args[0], args[1], args[2], args[3:]
 dst = "/verif/seeded/" + sid
 os.makedirs(dst, exist_ok=True)
 for f in ("patch.diff", "demo.cpp", "notes.txt"):
-    if os.path.exists(os.path.join(src, f)):
+    if os.path.exists(os.path.join(src, f)) and os.path.abspath(src) != os.path.abspath(dst):
         shutil.copy(os.path.join(src, f), dst)
 REPO = "/repo"
 def sh(cmd, **kw):
